@@ -1,6 +1,7 @@
 package main
 
 import (
+	"regexp"
 	"fmt"
 	"go/token"
 	"go/types"
@@ -31,6 +32,7 @@ type Engine struct {
 	fidFn  []*ssa.Function
 	contractFiles []string
 	targets map[string][]fnTarget
+	mentioned map[string]bool
 }
 
 func LoadEngine(repo string, stdlibDir string) (*Engine, error) {
@@ -314,4 +316,33 @@ func (e *Engine) resolveType(text string, pkgName string) (types.Type, error) {
 		return tn.Type(), nil
 	}
 	return nil, fmt.Errorf("%q is not a type", text)
+}
+
+func isRepoPkg(p *ssa.Package) bool {
+	return p != nil && p.Pkg != nil && strings.HasPrefix(p.Pkg.Path(), repoModule)
+}
+
+var identRe = regexp.MustCompile(`[A-Za-z_][A-Za-z0-9_]*`)
+
+// specMentions: does any contract clause, predicate, axiom, guarded_by or consttable mention this name?
+func (eng *Engine) specMentions(name string) bool {
+	if eng.mentioned == nil {
+		eng.mentioned = map[string]bool{}
+		for _, f := range eng.contractFiles {
+			b, err := os.ReadFile(f)
+			if err != nil {
+				continue
+			}
+			for _, l := range strings.Split(string(b), "\n") {
+				t := strings.TrimLeft(l, " \t")
+				if !strings.HasPrefix(t, "//@") {
+					continue
+				}
+				for _, w := range identRe.FindAllString(t, -1) {
+					eng.mentioned[w] = true
+				}
+			}
+		}
+	}
+	return eng.mentioned[name]
 }
